@@ -16,6 +16,7 @@ type effPayload struct {
 	attrs map[string]*jnode
 	rels  map[string]*jnode // relationship objects (nil when null)
 	id    *string           // the payload's id member, when it is a string
+	typ   *string           // the payload's type member, when it is a string
 }
 
 func effective(tree *jnode) effPayload {
@@ -30,6 +31,11 @@ func effective(tree *jnode) effPayload {
 			if v.kind == "str" {
 				s := v.s
 				e.id = &s
+			}
+		case strings.EqualFold(k, "type"):
+			if v.kind == "str" {
+				s := v.s
+				e.typ = &s
 			}
 		case strings.EqualFold(k, "attributes"):
 			if v.kind == "null" {
@@ -216,6 +222,9 @@ func c13Payload(c *ctx, sc schemaSpec, payload string, how string, prop string) 
 	// ---------- C06 (resource level): faithful decoding ----------
 	if prop == "C06" && fullOK {
 		ft := full.GetType()
+		if eff.typ != nil && ft.Name != *eff.typ {
+			key, detail = "type-differs", fmt.Sprintf("resource is of type %q, payload says %q", ft.Name, *eff.typ)
+		}
 		if eff.id != nil && full.Get("id") != *eff.id {
 			key, detail = "id-differs", fmt.Sprintf("resource has %q, payload says %q", full.Get("id"), *eff.id)
 		}
@@ -345,6 +354,9 @@ func c06Remarshal(tree *jnode, eff effPayload, out *jnode, ft jsonapi.Type) (str
 	if eff.id != nil && (oe.id == nil || *oe.id != *eff.id) {
 		return "remarshal-changes-id", fmt.Sprintf("%q", *eff.id)
 	}
+	if eff.typ != nil && (oe.typ == nil || *oe.typ != *eff.typ) {
+		return "remarshal-changes-type", fmt.Sprintf("%q", *eff.typ)
+	}
 	for k, raw := range eff.attrs {
 		got, ok := oe.attrs[k]
 		if !ok {
@@ -453,7 +465,9 @@ func runPayloads(c *ctx, prop string) {
 		links := typeSpec{name: "links4", fields: []fieldSpec{{name: "title", code: 1},
 			{rel: true, name: "author", toOne: true, target: "other"}, {rel: true, name: "editor", toOne: true, target: "other"},
 			{rel: true, name: "owner", toOne: true, target: "other"}, {rel: true, name: "reviewer", toOne: true, target: "other"},
-			{rel: true, name: "tags", target: "other"}, {rel: true, name: "cats", target: "other"}, {rel: true, name: "refs", target: "other"}}}
+			{rel: true, name: "tags", target: "other"}, {rel: true, name: "cats", target: "other"}, {rel: true, name: "refs", target: "other"},
+			// a relationship that is its own inverse
+			{rel: true, name: "friends", target: "links4", inv: "friends"}}}
 		ident := func(id string) *jnode { return jObj().set("id", jString(id)).set("type", jString("other")) }
 		for _, wrapped := range []bool{false, true} {
 			sc := schemaSpec{types: []typeSpec{links, {name: "other"}}, wrapped: map[string]bool{"links4": wrapped}}
@@ -467,12 +481,18 @@ func runPayloads(c *ctx, prop string) {
 					}
 				}
 				for i, rn := range []string{"tags", "cats", "refs"} {
-					switch (mask + i) % 3 {
+					switch (mask + i) % 4 {
 					case 0:
 						rels.set(rn, jObj().set("data", jArr(ident(fmt.Sprint("t", i)), ident("t9"))))
 					case 1:
 						rels.set(rn, jObj().set("data", jArr()))
+					case 3:
+						// identifiers that do not say their id
+						rels.set(rn, jObj().set("data", jArr(jObj().set("type", jString("other")))))
 					}
+				}
+				if mask&1 != 0 {
+					rels.set("friends", jObj().set("data", jArr(jObj().set("id", jString("f1")).set("type", jString("links4")))))
 				}
 				o := jObj().set("id", jString("a1")).set("type", jString("links4")).set("attributes", jObj().set("title", jString("x"))).set("relationships", rels)
 				reps := 3
@@ -533,6 +553,12 @@ func runPayloads(c *ctx, prop string) {
 			}
 		}
 		c13Payload(c, sc, p.text(), how, prop)
+		if c.r.chance(1, 10) {
+			// the type name with white space around it, or in another case: another name
+			q := p.clone()
+			q.set("type", jString(pick(c.r, []string{tn + " ", " " + tn, tn + "\n", strings.ToUpper(tn), "\t" + tn + " "})))
+			c13Payload(c, sc, q.text(), how+"+type-padded", prop)
+		}
 		if c.r.chance(1, 8) {
 			// something after (or before) the JSON value
 			t := pick(c.r, []string{" {}", "]", ",1", " x", "}", "\n\n", " \t", "\x00", " null", p.text()})
